@@ -1,301 +1,7 @@
 """findings_C18.py — trigger predicates of the open known findings of property C18.
 
-A failing record is {"kind": <failure class>, "case": {"text", "tol", "pre"}, ...}: one record per failure class of a
-case, so that two defects met by the same input are attributed separately.  Each predicate decides from the *case*
-(the surface / transform cards of the text and the earlier edits) whether the trigger of the defect is present, and
-then confirms (rule iii of DESIGN.md §2.5) that the same case with the triggering feature removed no longer fails in
-this class; any other way of failing in the same class stays a violation."""
-import re
-
-FAMILY = {"PX": "A", "PY": "A", "PZ": "A", "CX": "O", "CY": "O", "CZ": "O", "C/X": "P", "C/Y": "P", "C/Z": "P"}
-_SURF = re.compile(r"^([*+]?)(\d+)((?:\s+[+-]?\d+)?)\s+([A-Za-z/]+)\s")
-_TR = re.compile(r"^(\*?)[tT][rR](\d+)\s+(.*)$")
-
-
-def _blocks(text):
-    """-> (lines before the surface block, surface lines, lines after) with continuation lines joined"""
-    parts = text.split("\n\n")
-    if len(parts) < 2:
-        return None
-    return parts
-
-
-def _cards(block):
-    out = []
-    for l in block.split("\n"):
-        if l.startswith("     ") and out:
-            out[-1] = out[-1] + " " + l.strip()
-        elif l.strip():
-            out.append(l)
-    return out
-
-
-def surfaces_of(text):
-    """[(modifier, number, pointer | None, MNEMONIC)] read from the surface block, by regular expression only"""
-    parts = _blocks(text)
-    if not parts:
-        return []
-    out = []
-    for card in _cards(parts[1]):
-        m = _SURF.match(card)
-        if m:
-            ptr = int(m.group(3)) if m.group(3).strip() else None
-            out.append((m.group(1), int(m.group(2)), ptr, m.group(4).upper()))
-    return out
-
-
-def transforms_of(text):
-    """{number: (degrees, number of rotation entries)}"""
-    parts = _blocks(text)
-    out = {}
-    if not parts or len(parts) < 3:
-        return out
-    for card in _cards(parts[2]):
-        m = _TR.match(card)
-        if m:
-            n = len(m.group(3).split())
-            out[int(m.group(2))] = (m.group(1) == "*", max(0, min(n - 3, 9)))
-    return out
-
-
-def _rewrite(text, block_index, fn):
-    parts = _blocks(text)
-    cards = [fn(c) for c in _cards(parts[block_index])]
-    lines = []
-    for c in cards:
-        # re-wrap: continuation lines of 5 blanks
-        cur = ""
-        for w in c.split(" "):
-            if cur and len(cur) + 1 + len(w) > 76:
-                lines.append(cur)
-                cur = "     " + w
-            else:
-                cur = w if not cur else cur + " " + w
-        lines.append(cur)
-    parts = list(parts)
-    parts[block_index] = "\n".join(lines)
-    return "\n\n".join(parts)
-
-
-# A known finding is a behaviour of the code *as modelled* (each is a _refuted theorem about Model/Dedup.v): when the
-# real call no longer does what the model says for this very input, no predicate holds and the failure is reported.
-_AGREE = {}
-
-
-def _key(c):
-    return (c.get("text"), c.get("tol"), repr(c.get("pre", [])))
-
-
-def note_agreement(c, ok):
-    if len(_AGREE) > 50000:
-        _AGREE.clear()
-    _AGREE[_key(c)] = bool(ok)
-
-
-def model_agrees(c):
-    k = _key(c)
-    if k not in _AGREE:
-        import props.C18 as C18
-        r = C18.run_case(c, want_text=False)
-        note_agreement(c, "skip" in r or C18.model_agrees(r))
-    return _AGREE[k]
-
-
-def _classes(c):
-    import props.C18 as C18
-    return C18.failure_kinds(c)
-
-
-def _still(c, kinds):
-    """does the (modified) case still fail in one of these classes?  A case that can no longer be built does not."""
-    try:
-        return bool(set(_classes(c)) & set(kinds))
-    except Exception:       # noqa: BLE001
-        return True
-
-
-# ----------------------------------------------------------------------------- F-C18-boundary-condition-ignored
-BC_KINDS = ("not-a-duplicate:boundary-condition",)
-
-
-def C18_bc_ignored(case, params):
-    """two surfaces with the same mnemonic (one of the three classes that look for duplicates) and different
-    boundary-condition markers; gone when every marker is dropped"""
-    c = case.get("case")
-    if c and not model_agrees(c):
-        return False
-    if not c or case.get("kind") not in BC_KINDS:
-        return False
-    ss = surfaces_of(c["text"])
-    mods = {}
-    for mod, _, _, mn in ss:
-        if mn in FAMILY:
-            mods.setdefault(mn, set()).add(mod)
-    if not any(len(v) > 1 for v in mods.values()):
-        return False
-    c2 = dict(c, text=_rewrite(c["text"], 1, lambda card: card.lstrip("*+")))
-    return not _still(c2, BC_KINDS)
-
-
-# ----------------------------------------------------------------------------- F-C18-periodic-ignored
-PER_KINDS = ("not-a-duplicate:periodic", "dangling-periodic", "file-dangling-periodic")
-
-
-def C18_periodic_ignored(case, params):
-    """a periodic surface (negative pointer on the card, or periodic_surface assigned before the call) next to a
-    surface of the same mnemonic, or pointed to by one; gone when no surface is periodic"""
-    c = case.get("case")
-    if c and not model_agrees(c):
-        return False
-    if not c:
-        return False
-    if case.get("kind") == "exception:BrokenObjectLinkError":
-        # an earlier call removed the partner of a periodic surface: the next call cannot resolve the number
-        if not any(p[0] == "dedup" for p in c.get("pre", [])):
-            return False
-    elif case.get("kind") not in PER_KINDS:
-        return False
-    ss = surfaces_of(c["text"])
-    per_text = [s for s in ss if s[2] is not None and s[2] < 0]
-    per_ops = [p for p in c.get("pre", []) if p[0] == "set_per"]
-    if not per_text and not per_ops:
-        return False
-
-    def drop(card):
-        m = _SURF.match(card)
-        if m and m.group(3).strip() and int(m.group(3)) < 0:
-            return card[:m.start(3)] + card[m.end(3):]
-        return card
-    c2 = dict(c, text=_rewrite(c["text"], 1, drop), pre=[p for p in c.get("pre", []) if p[0] not in ("set_per", "del_per")])
-    return not _still(c2, (case["kind"],))
-
-
-# ----------------------------------------------------------------------------- F-C18-rotation-ignored
-SECOND_KINDS = ("dangling-leaf", "file-dangling-leaf")
-ROT_KINDS = ("not-a-duplicate:transform",) + SECOND_KINDS
-IDENT = {False: "1 0 0 0 1 0 0 0 1", True: "0 90 90 90 0 90 90 90 0"}
-
-
-def _spell_identity(text):
-    def fn(card):
-        m = _TR.match(card)
-        if m and len(m.group(3).split()) == 3:
-            return card.rstrip() + " " + IDENT[m.group(1) == "*"]
-        return card
-    return _rewrite(text, 2, fn)
-
-
-def _has_rot_feature(c):
-    lens = {n for _, n in transforms_of(c["text"]).values()}
-    return 0 in lens and len(lens) >= 2
-
-
-def _dangling_explained(c, kind, need):
-    """dangling leaves have two known causes (an earlier call; the asymmetric transform test).  -> True when the case
-    has the feature `need` and stops failing in `kind` once the features present are removed (one, or both)."""
-    pre = c.get("pre", [])
-    has_call = any(p[0] == "dedup" for p in pre)
-    has_rot = _has_rot_feature(c)
-    if need == "call" and not has_call or need == "rot" and not has_rot:
-        return False
-    no_call = dict(c, pre=[p for p in pre if p[0] != "dedup"])
-    if need == "call" and not _still(no_call, (kind,)):
-        return True
-    try:
-        no_rot = dict(c, text=_spell_identity(c["text"]))
-    except Exception:       # noqa: BLE001
-        return False
-    if need == "rot" and not _still(no_rot, (kind,)):
-        return True
-    if has_call and has_rot:
-        return not _still(dict(no_rot, pre=no_call["pre"]), (kind,))
-    return False
-
-
-def C18_rotation_ignored(case, params):
-    """a transform without rotation entries and one with rotation entries, both used by surfaces: Transform.equivalent
-    called on the one without does not look at the other's rotation (and the asymmetry lets a survivor be removed
-    later); gone when the absent rotations are spelled as the identity matrix"""
-    c = case.get("case")
-    if c and not model_agrees(c):
-        return False
-    if not c or case.get("kind") not in ROT_KINDS:
-        return False
-    if case["kind"] in SECOND_KINDS:
-        return _dangling_explained(c, case["kind"], "rot")
-    if not _has_rot_feature(c):
-        return False
-    try:
-        c2 = dict(c, text=_spell_identity(c["text"]))
-    except Exception:       # noqa: BLE001
-        return False
-    return not _still(c2, (case["kind"],))
-
-
-# ----------------------------------------------------------------------------- F-C18-rotation-index-error
-IDX_KINDS = ("exception:IndexError",)
-
-
-def C18_rotation_index_error(case, params):
-    """two transforms whose rotation matrices have different non-zero lengths (MCNP accepts 3, 5, 6 or 9 entries);
-    gone when the shorter ones are padded to nine entries"""
-    c = case.get("case")
-    if c and not model_agrees(c):
-        return False
-    if not c or case.get("kind") not in IDX_KINDS:
-        return False
-    trs = transforms_of(c["text"])
-    lens = {n for _, n in trs.values() if n > 0}
-    if len(lens) < 2:
-        return False
-
-    def fn(card):
-        m = _TR.match(card)
-        if m:
-            vals = m.group(3).split()
-            if 3 < len(vals) < 12:
-                return card.rstrip() + " 0" * (12 - len(vals))
-        return card
-    c2 = dict(c, text=_rewrite(c["text"], 2, fn))
-    return not _still(c2, IDX_KINDS)
-
-
-# ----------------------------------------------------------------------------- F-C18-pointers-rerun
-RERUN_KINDS = ("survivor-pointer-changed", "file-survivor-changed", "exception:BrokenObjectLinkError",
-               "exception:MalformedInputError")
-RERUN_OPS = ("set_tr", "del_tr", "set_per", "del_per", "renum_surf", "renum_tr", "renum_to_freed")
-_CELLMOD = re.compile(r"^(vol|u|lat|fill)\b", re.I)
-
-
-def C18_pointers_rerun(case, params):
-    """a transform / periodic surface was assigned or deleted, or a surface / transform renumbered, before the call,
-    or the data block holds a VOL / U / LAT / FILL card: the call resolves the pointers again from the numbers
-    remembered from the read and merges the data-block cards a second time; gone without those edits / cards"""
-    c = case.get("case")
-    if c and not model_agrees(c):
-        return False
-    if not c or case.get("kind") not in RERUN_KINDS:
-        return False
-    pre = c.get("pre", [])
-    parts = _blocks(c["text"])
-    cards = _cards(parts[2]) if parts and len(parts) > 2 else []
-    has_ops = any(p[0] in RERUN_OPS for p in pre)
-    has_cards = any(_CELLMOD.match(card) for card in cards)
-    if not has_ops and not has_cards:
-        return False
-    c2 = dict(c, pre=[p for p in pre if p[0] not in RERUN_OPS])
-    if has_cards:
-        c2["text"] = _rewrite(c["text"], 2, lambda card: "c " + card if _CELLMOD.match(card) else card)
-    return not _still(c2, (case["kind"],))
-
-
-# ----------------------------------------------------------------------------- F-C18-second-call
-def C18_second_call(case, params):
-    """remove_duplicate_surfaces had already been called on the problem (cell.surfaces was emptied by it, so the
-    cells are not re-pointed any more); gone without the earlier call"""
-    c = case.get("case")
-    if c and not model_agrees(c):
-        return False
-    if not c or case.get("kind") not in SECOND_KINDS:
-        return False
-    return _dangling_explained(c, case["kind"], "call")
+There is none: the six findings of this property (boundary condition / periodicity ignored by
+find_duplicate_surfaces, rotation ignored / IndexError in Transform.equivalent, the second run of the pointer
+resolution, a second call leaving dangling leaves) were repaired by /repo commits d09ab94, f2650a0 and 983bf94
+(findings/C18.fixed.json; their replays are corpus/C18/fixed-*.json and run first on every check).
+Every failure of the oracle of harness/props/C18.py is therefore reported as a violation."""
